@@ -35,6 +35,19 @@ type Mod struct {
 type Tree struct {
 	Shape string `json:"shape"`
 	Mods  []Mod  `json:"mods"`
+	// Twin: all module files are byte-identical (they tick under the shared label "twin"); they are
+	// still different modules with globals of their own
+	Twin bool `json:"twin,omitempty"`
+}
+
+const twinLabel = "twin"
+
+// tickID is the label module i passes to tick().
+func (t *Tree) tickID(i int) string {
+	if t.Twin {
+		return twinLabel
+	}
+	return t.Mods[i].ID
 }
 
 func (m Mod) comps() []string { return strings.Split(m.ID, "/") }
@@ -174,7 +187,7 @@ func callOn(d Dep, op string, arg string) string {
 func (t *Tree) Source(i int) string {
 	m := t.Mods[i]
 	var b strings.Builder
-	fmt.Fprintf(&b, "tick(%q)\n", m.ID)
+	fmt.Fprintf(&b, "tick(%q)\n", t.tickID(i))
 	b.WriteString("cnt := 0\nlst := []\n")
 	fmt.Fprintf(&b, "gv := %d\n", m.GV)
 	for _, d := range m.Deps {
@@ -242,7 +255,7 @@ func genTree(base uint64, k, nTrees int) *Tree {
 		return cycleTree(k - nTrees)
 	}
 	r := mon.NewRand(base).Split("tree").SplitN(k)
-	shape := mon.Pick(r, []string{"single", "chain", "diamond", "dag", "dag", "samename", "samename", "unicode", "repeat", "lazycycle"})
+	shape := mon.Pick(r, []string{"single", "chain", "diamond", "dag", "dag", "samename", "samename", "unicode", "repeat", "lazycycle", "twins"})
 	var ids []string
 	pickN := func(pool []string, n int) {
 		p := r.Perm(len(pool))
@@ -312,6 +325,10 @@ func genTree(base uint64, k, nTrees int) *Tree {
 				}
 			}
 		}
+	case "twins":
+		// byte-identical files under different names (no edges: an import statement would tell them apart)
+		pickN(append(append([]string{}, topNames...), nestedNames...), r.Range(2, 4))
+		t.Twin = true
 	case "unicode":
 		pickN(unicodeNames, r.Range(1, 3))
 		pickN(topNames, 2)
@@ -328,7 +345,11 @@ func genTree(base uint64, k, nTrees int) *Tree {
 		if r.Chance(1, 6) {
 			ext = ".rsr"
 		}
-		t.Mods = append(t.Mods, Mod{ID: id, Ext: ext, GV: 100 * (i + 1)})
+		gv := 100 * (i + 1)
+		if t.Twin {
+			gv = 100
+		}
+		t.Mods = append(t.Mods, Mod{ID: id, Ext: ext, GV: gv})
 	}
 	for n, e := range edges {
 		target := t.Mods[e.to]
@@ -444,7 +465,7 @@ func (m *model) load(i int, ctx string) {
 		return
 	}
 	m.st[i].loaded = true
-	m.ticks = append(m.ticks, m.t.Mods[i].ID)
+	m.ticks = append(m.ticks, m.t.tickID(i))
 	if m.loadLog != nil {
 		*m.loadLog = append(*m.loadLog, m.t.Mods[i].ID)
 	}
